@@ -1,5 +1,4 @@
-\* quick, exhaustive: priority / offline / tracking focus. 2 users with every status on the server, friend and
-\* privilege; the client learns a status only while it watches the user; limit 0 raised once.
+\* thorough, exhaustive: as MC_prio plus one attribute change at any moment.
 SPECIFICATION Spec
 CONSTANTS
   UploadIds = {1, 3}
@@ -10,7 +9,7 @@ CONSTANTS
   AnyInitAttr = TRUE
   Statuses = {"unknown", "offline", "away", "online"}
   SlotBudget = 1
-  AttrBudget = 0
+  AttrBudget = 1
   LifeBudget = 0
   TrackMgmt = TRUE
   GrantAll = FALSE
